@@ -2997,3 +2997,165 @@ def r_autoref_apply(P, R):
     if n is not None:
         R.floor('R-OPTAB calls of the wrapper model', n, 100)
 r_autoref_apply.NAME = 'R-OPTAB(autoref wrapper model)'
+
+
+def dot_model(P, R):
+    """`dd.bdd._to_dot(roots, bdd)` interpreted (with `dd._utils.DotGraph`)
+    on small managers: the graph it builds must show, for every node
+    below the roots, one arc to the low and one to the high successor,
+    in two different styles, the mark `-1` exactly on arcs to
+    complemented successors, one external reference per root with its
+    own mark, and a layer per level labelled with the level.  The
+    legend in doc.md ("solid arcs represent the "if" branches, dashed
+    arcs the "else" branches") must say the same as the styles used."""
+    import itertools
+    import re
+    f = P.func('dd.bdd._to_dot')
+    stubs = ClassStubs(P, 'dd.bdd.BDD')
+    resolver = interp.ModuleEnv(P, 'dd.bdd', stubs)
+    names = ['a', 'b', 'c']
+    rows = list(itertools.product((False, True), repeat=3))
+
+    def tt(fn):
+        return tuple(bool(fn(*r)) for r in rows)
+    funcs = [tt(lambda a, b, c: a and not b),
+             tt(lambda a, b, c: (b if a else c)),
+             tt(lambda a, b, c: a != c)]
+    problems = dict()
+    styles = dict()    # 'low' / 'high' -> set of styles seen
+    n = 0
+    try:
+        for order in (['a', 'b', 'c'], ['b', 'c', 'a']):
+            base, ext = _build_manager(order, funcs, range(len(funcs)))
+            rs = sorted(ext)
+            for roots in ([rs[0]], [rs[0], -rs[1]], [rs[2], -rs[2]],
+                          [-rs[1]], [1], None):
+                n += 1
+                obj = _object_manager(copy.deepcopy(
+                    {k: v for k, v in base.items() if k != 'self'}))
+                ps = list(f.params)
+                out, _ = interp.run_function(
+                    f.node, {ps[0]: (list(roots) if roots is not None
+                                     else None), ps[1]: obj},
+                    stubs, resolver)
+                what = f'nodes {obj.attrs["_succ"]}, roots {roots}'
+                if out[0] != 'return' or not isinstance(
+                        out[1], interp.Sym) or not out[1].attrs:
+                    problems.setdefault('raises', (
+                        f'{what}: {out[0]} {out[1]!r}'))
+                    continue
+                g = out[1].attrs
+                edges = dict()
+                for (a, b), attrs_list in dict(g.get('edges', {})).items():
+                    edges.setdefault(a, []).extend(
+                        (b, dict(x)) for x in attrs_list)
+                succ = obj.attrs['_succ']
+                if roots is None:
+                    shown = set(succ)
+                else:
+                    shown, todo = {1}, [abs(r) for r in roots]
+                    while todo:
+                        u = todo.pop()
+                        if u in shown:
+                            continue
+                        shown.add(u)
+                        todo += [abs(succ[u][1]), abs(succ[u][2])]
+                for u in shown:
+                    if u == 1:
+                        continue
+                    i, lo, hi = succ[u]
+                    arcs = [(b, d) for b, d in edges.get(str(u), [])
+                            if d.get('style') != 'invis']
+                    to_lo = [d for b, d in arcs if b == str(abs(lo))]
+                    to_hi = [d for b, d in arcs if b == str(abs(hi))]
+                    if len(arcs) != 2:
+                        problems.setdefault('arcs', (
+                            f'{what}: node {u} = {succ[u]} has the arcs '
+                            f'{arcs}, expected one to each successor'))
+                        continue
+                    if abs(lo) != abs(hi):
+                        if len(to_lo) != 1 or len(to_hi) != 1:
+                            problems.setdefault('arcs', (
+                                f'{what}: node {u} = {succ[u]} has the '
+                                f'arcs {arcs}'))
+                            continue
+                        dl, dh = to_lo[0], to_hi[0]
+                    else:
+                        marked = [d for b, d in arcs if 'taillabel' in d]
+                        plain = [d for b, d in arcs
+                                 if 'taillabel' not in d]
+                        if lo < 0 and len(marked) == 1 and plain:
+                            dl, dh = marked[0], plain[0]
+                        else:
+                            dl, dh = arcs[0][1], arcs[1][1]
+                    styles.setdefault('low', set()).add(dl.get('style'))
+                    styles.setdefault('high', set()).add(dh.get('style'))
+                    if (lo < 0) != (dl.get('taillabel') == '-1') or \
+                            'taillabel' in dh:
+                        problems.setdefault('complement-mark', (
+                            f'{what}: node {u} = {succ[u]} is drawn with '
+                            f'the arcs low {dl}, high {dh}: the mark -1 '
+                            'belongs on the arc to a complemented '
+                            'successor and nowhere else'))
+                refs = {a: arcs for a, arcs in edges.items()
+                        if a.strip('"').startswith('ref')}
+                if roots is not None:
+                    got = sorted(
+                        (b, d.get('taillabel') == '-1')
+                        for arcs in refs.values() for b, d in arcs)
+                    want = sorted((str(abs(r)), r < 0) for r in roots)
+                    if got != want or len(refs) != len(roots):
+                        problems.setdefault('unsigned-identity', (
+                            f'{what}: the external references are drawn '
+                            f'as {sorted(refs.items())}; one per root, '
+                            'with the mark of its sign, gives '
+                            f'{want}'))
+    except interp.Unknown as e:
+        R.undecided('R-ROLE', f.qualname, 'DOT model', str(e))
+        return None
+    if not problems and styles:
+        lo, hi = styles.get('low', set()), styles.get('high', set())
+        if len(lo) != 1 or len(hi) != 1 or lo == hi:
+            problems.setdefault('styles', (
+                f'arcs to low successors are drawn {sorted(lo)}, to high '
+                f'successors {sorted(hi)}: the two kinds cannot be told '
+                'apart'))
+        else:
+            # the legend of the picture in doc.md
+            try:
+                doc = open(P.repo + '/doc.md').read()
+            except OSError:
+                doc = None
+            if doc is not None:
+                m1 = re.search(r'(solid|dashed) arcs represent the '
+                               r'[“"](if|else)[”"] branches', doc)
+                m2 = re.search(r'(solid|dashed) arcs the '
+                               r'[“"](if|else)[”"] branches', doc)
+                if m1 and m2:
+                    legend = {m1.group(2): m1.group(1),
+                              m2.group(2): m2.group(1)}
+                    drawn = {'else': next(iter(lo)), 'if': next(iter(hi))}
+                    if legend != drawn:
+                        problems.setdefault('legend', (
+                            f'doc.md says {legend} (branch -> style of '
+                            f'the arc); `_to_dot` draws {drawn}: a '
+                            'reader who follows the legend takes the '
+                            'wrong successor at every node'))
+                else:
+                    R.undecided('R-ROLE', 'doc.md', 'legend of the '
+                                'picture', 'the two lines about solid / '
+                                'dashed arcs were not found')
+    keys = {'legend': ('R-ROLE', 'doc-legend', 'doc.md')}
+    for sub, msg in sorted(problems.items()):
+        rule, s2, where = keys.get(sub, ('R-ROLE', f'dot-{sub}',
+                                         f.qualname))
+        R.violation(rule, s2, where, sub, msg,
+                    unit='doc.md' if sub == 'legend' else f.unit.rel,
+                    line=None if sub == 'legend' else f.lineno)
+    if not problems:
+        R.holds('R-ROLE', f.qualname,
+                f'DOT model ({n} graphs): one arc per successor in two '
+                'styles, -1 on arcs to complemented successors only, one '
+                'external reference per root with its sign; the legend '
+                'in doc.md names the same styles')
+    return n
